@@ -1,51 +1,20 @@
 import Qryn.LogQL.JsonParserSegs
 import Qryn.Proofs.RawAtoms
-/-! C10: the text of the `| json` parameter object is well formed for its leaves — labels and path parts of ANY
-    bytes (names beginning with a digit, a quote, containing brackets, comment openers) stay single literals. -/
+import Qryn.Proofs.Closed
+/-! C10: the text of the `| json` parameter object is well formed for its leaves — labels and path name parts of ANY
+    bytes (names beginning with a digit, a quote, containing brackets, comment openers) stay single literals, index
+    parts are decimal integers. -/
 namespace Qryn.LogQL
 open Qryn Qryn.Sql Qryn.Lex
 
-theorem kw_jsonType : rawC (b "if(JSONType(") = true := by decide +kernel
-theorem kw_jp1 : rawC (b " as jp_") = true := by decide +kernel
-theorem kw_jp2 : rawC (b ") == 'String', JSONExtractString(") = true := by decide +kernel
-theorem kw_jp3 : rawC (b ", jp_") = true := by decide +kernel
-theorem kw_jp4 : rawC (b "), JSONExtractRaw(") = true := by decide +kernel
-theorem kw_jp5 : rawC (b "))") = true := by decide +kernel
-theorem kw_mapFrom : rawC (b "mapFromArrays([") = true := by decide +kernel
-theorem kw_mapMid : rawC (b "], [") = true := by decide +kernel
-theorem kw_mapEnd : rawC (b "])") = true := by decide +kernel
-
-theorem PE_strs (xs : List Bytes) : PE (joinS (b ",") (xs.map (fun p => [Seg.str p]))) :=
-  PE_joinS (PC_raw kw_comma) _ (PE_of_mem_map (fun p _ => PE_str p))
-
-theorem pathSegs_closed (col : Bytes) (hc : rawE col = true) (n : Nat) (path : List Bytes) : PE (pathSegs col n path) := by
-  have hd := rawE_natDigits n
-  have h1 : rawC (b "if(JSONType(" ++ col ++ b ", ") = true := rawC_wrap kw_jsonType hc kw_commaSp
-  have h2 : rawC (b " as jp_" ++ natDigits n ++ b ") == 'String', JSONExtractString(" ++ col ++ b ", jp_" ++ natDigits n ++
-      b "), JSONExtractRaw(" ++ col ++ b ", jp_" ++ natDigits n ++ b "))") = true := by
-    have a := rawC_wrap kw_jp1 hd kw_jp2
-    have b1 := rawC_wrap a hc kw_jp3
-    have c := rawC_wrap b1 hd kw_jp4
-    have d := rawC_wrap c hc kw_jp3
-    exact rawC_wrap d hd kw_jp5
-  unfold pathSegs
-  exact (PC.wrap (PC_raw h1) (PE_strs path) (PC_raw h2)).toPE
-
-theorem pathsSegs_closed (col : Bytes) (hc : rawE col = true) : ∀ (id : Nat) (ps : List (List Bytes)),
-    ∀ x ∈ pathsSegs col id ps, PE x
-  | _, [], x, hx => by simp [pathsSegs] at hx
-  | id, p :: ps, x, hx => by
-    simp only [pathsSegs, List.mem_cons] at hx
-    rcases hx with rfl | hx
-    · exact pathSegs_closed col hc _ p
-    · exact pathsSegs_closed col hc (id + 1) ps x hx
-
-/-- **for every column text that is closed, every label list and every list of paths** -/
-theorem jsonParserSegs_closed (col : Bytes) (hc : rawE col = true) (id : Nat) (labels : List Bytes) (paths : List (List Bytes)) :
-    PE (jsonParserSegs col id labels paths) := by
+/-- **for every list of (label, path) parameters** -/
+theorem jsonParserSegs_closed (ps : List (Bytes × List JArg)) : PE (jsonParserSegs ps) := by
   unfold jsonParserSegs
-  have h1 := PC.wrap (PC_raw kw_mapFrom) (PE_strs labels) (PC_raw kw_mapMid)
-  have h2 := PC.wrap h1 (PE_joinS (PC_raw kw_comma) _ (pathsSegs_closed col hc id paths)) (PC_raw kw_mapEnd)
-  simpa [List.append_assoc] using h2.toPE
+  apply PE_jsonMapSegs
+  simp only [List.all_eq_true]
+  intro p _ a _
+  cases a with
+  | key k => rfl
+  | idx i => exact rawE_intText i
 
 end Qryn.LogQL
